@@ -1144,6 +1144,14 @@ void World::doSave(const Step &st, StepRecord &rec) {
         else if (!os.hard_fired && haveRef && img != refImg)
             violate("C15", "benign-fault-changed-image", "short writes / EINTR changed the bytes that reached the disk");
     }
+    {
+        uint64_t uoff = 0;
+        bool undef = disk_take_undefined_write(&uoff);
+        if (undef && !stop && on(ORC_C14)) {
+            std::string region = uoff < 512 ? ((uoff / 2 + 1 >= 199 && uoff / 2 + 1 <= 234) ? "header.event-labels" : "header.word" + tos(uoff / 2 + 1)) : "body";
+            violate("C14", "undefined-bytes-written/" + region, "a byte handed to the OS write call at file offset " + tos(uoff) + " is not defined (memcheck)");
+        }
+    }
     if (!stop && on(ORC_C14)) {
         std::string fc, d = diff_snapshots(before, cur, DiffOpts(), &fc);
         if (!d.empty()) violate("C14", "save-changed-object/" + fc, "saving changed the object: " + d);
